@@ -4,7 +4,7 @@ V = os.path.dirname(os.path.dirname(os.path.abspath(__file__)))
 kf = json.load(open(V + "/known_findings.json"))["entries"]
 why = {"D14b": "SmartLookupDict raising TypeError for a nested key through a scalar is tested, intended behaviour of that class; whether the matcher should absorb it is a maintainer decision",
        "D14c": "a one-character grammar corner (`(and)` accepted as an ID pattern); repairing it changes the accepted language, which a maintainer should decide",
-       "D22": "every reply site of the request port (five) and the transfer thread would need an OSError arm of its own; catching OSError wholesale in the serve loop or the transfer would also hide errors of the handler's file; the server keeps serving, only the log entry is wrong",
+       "D27": "the small repair (make the template name absolute without normalising it) changes which include names resolve (a '..' through a regular file is accepted lexically and rejected by the operating system; ./check C17 reports it) and realpath would move the base of relative includes: a maintainer decision about template-name semantics; needs a configured path with a symbolic link followed by '..', not client-triggered",
        "D26": "needs an iterative evaluator for operator chains (the parser already builds them iteratively); 400 operands work, the boundary is Python's recursion limit",
        "D18": "a correct repair needs a versioned FileSystemLoader without a read/stat race (not a three-line patch); the engine's own loader is not affected"}
 fixed = ["| id | property | commit | what failed |", "|---|---|---|---|"]
@@ -24,7 +24,7 @@ for d in sorted(glob.glob(V + "/seeded/*")):
         v = "caught" if cr.get("replay_kind") == "failing-input" else "no-input"
     cl = ", ".join(sorted(set(cr.get("failed_clauses") or [])))[:60]
     rows.setdefault(prop, []).append(f"{tag}: {v}" + (f" ({cl})" if cl else ""))
-seed = ["| property | theorems | seeds (round 1: s1-s3, rounds 2-8: r2s1-r8s3; verdict of the quick check: clause) |", "|---|---|---|"]
+seed = ["| property | theorems | seeds (round 1: s1-s3, rounds 2-10: r2s1-r10s3; verdict of the quick check: clause) |", "|---|---|---|"]
 for pdir in sorted(glob.glob(V + "/coq/theories/C[0-9][0-9]")):
     prop = os.path.basename(pdir)
     n = sum(len(re.findall(r"^\s*Theorem\s", open(pf).read(), re.M)) for pf in glob.glob(pdir + "/*Props*.v"))
